@@ -31,7 +31,7 @@ func init() {
 			st := &c11State{}
 			hist := &byteHistory
 			unit.Each(func(b []byte) bool {
-				hist.begin(w, b, unit.Name)
+				b = hist.begin(w, b, unit.Name)
 				c11Check(w, st, b, unit.Name)
 				hist.end(histOK)
 				return !w.Expired()
